@@ -140,9 +140,19 @@ fn read_message() -> io::Result<Option<serde_json::Value>> {
         io::Error::new(io::ErrorKind::InvalidData, "Missing Content-Length header")
     })?;
 
-    // Read the JSON content
-    let mut buffer = vec![0u8; content_length];
-    stdin.read_exact(&mut buffer)?;
+    // Read the JSON content. Don't allocate the announced length up
+    // front: the header is client input and may be absurdly large.
+    let mut buffer = vec![];
+    stdin
+        .by_ref()
+        .take(content_length as u64)
+        .read_to_end(&mut buffer)?;
+    if buffer.len() < content_length {
+        return Err(io::Error::new(
+            io::ErrorKind::UnexpectedEof,
+            "Message body is shorter than its Content-Length",
+        ));
+    }
 
     let message: serde_json::Value = serde_json::from_slice(&buffer)?;
     Ok(Some(message))
